@@ -28,7 +28,7 @@ func (c14) NumCases(tier string) int {
 }
 
 func (c14) Rule() string {
-	return "positive: well-typed statements from the typed grammar (documented typing table) must be accepted, and executing them in row and batch mode on conforming stores must not fail (the generator excludes by construction the data-dependent failures the engine legitimately reports: zero divisors, bad patterns, reversed bounds, unequal vector lengths, dynamically typed JSON members); negative: every single-fault mutant - an operator applied to unsupported operand types, a non-Boolean WHERE or ! operand, key/value where the statement form forbids them, an unknown function, an argument count off by one, a constant aggregate parameter of the wrong type - with the fault placed at top level, under !, inside a call argument, an IN item, a BETWEEN bound, a select field, an aggregate argument, or a PUT/REMOVE/DELETE expression must make BuildPlan return an error with an empty storage log whatever the store holds. Non-trivial: every generated statement; distinct by statement text."
+	return "positive: well-typed statements from the typed grammar (documented typing table) must be accepted, and executing them in row and batch mode on conforming stores must not fail (the generator excludes by construction the data-dependent failures the engine legitimately reports: zero divisors, bad patterns, reversed bounds, unequal vector lengths, dynamically typed JSON members); negative: every single-fault mutant - an operator applied to unsupported operand types, a non-Boolean WHERE or ! operand, key/value where the statement form forbids them, an unknown function, an argument count off by one, a constant aggregate parameter of the wrong type - with the fault placed at top level, under !, inside a call argument, below a (cascaded) field access, an IN item, a BETWEEN bound, a select field, an aggregate argument, or a PUT/REMOVE/DELETE expression must make BuildPlan return an error with an empty storage log whatever the store holds. Non-trivial: every generated statement; distinct by statement text."
 }
 
 func (c14) Assumptions() []string {
@@ -40,7 +40,7 @@ func (c14) Gates(tier string, m map[string]int64) []rt.Gate {
 	for _, f := range []string{"operand-type", "non-boolean-where", "non-boolean-not", "forbidden-keyword", "unknown-function", "arity"} {
 		gs = append(gs, rt.GateMin("fault kind "+f, m, "fault:"+f, 50))
 	}
-	for _, p := range []string{"top", "under-not", "call-arg", "in-item", "between-bound", "select-field", "aggregate-arg", "put", "remove", "delete", "and-or-operand"} {
+	for _, p := range []string{"top", "under-not", "call-arg", "in-item", "between-bound", "select-field", "aggregate-arg", "put", "remove", "delete", "and-or-operand", "under-index"} {
 		gs = append(gs, rt.GateMin("fault position "+p, m, "pos:"+p, 20))
 	}
 	return gs
@@ -191,7 +191,7 @@ func (k c14) negative(c *rt.Ctx, st *gen.Store) {
 	g.NoAlias = true
 	K, V := gen.Key, gen.Value
 	var q, fault, pos string
-	place := r.Intn(15)
+	place := r.Intn(16)
 	sel := func(field, where string) string { return "select " + field + " where " + where }
 	switch place {
 	case 0: // top: non-Boolean WHERE
@@ -343,6 +343,28 @@ func (k c14) negative(c *rt.Ctx, st *gen.Store) {
 			q = "select key as k1, upper(join('-', k1, " + fn + ")) as u where true"
 		}
 		fault, pos = f, "call-arg"
+	case 14: // below a field access of one, two or three levels
+		lv := r.Range(1, 3)
+		idx := strings.Repeat("['a']", lv)
+		if r.Bool() {
+			idx = "['a']" + strings.Repeat("[0]", lv-1)
+		}
+		switch r.Intn(5) {
+		case 0:
+			n, f := c14Faulty(r, gen.TS)
+			q, fault = sel("*", "json("+gen.Print(n)+")"+idx+" = 'x'"), f
+		case 1:
+			n, f := c14Faulty(r, gen.TS)
+			q, fault = sel("key, json("+gen.Print(n)+")"+idx, "key ^= 'k'"), f
+		case 2:
+			q, fault = "put ('k9', json(value)"+idx+")", "forbidden-keyword"
+		case 3:
+			q, fault = "remove json(key)"+idx, "forbidden-keyword"
+		default:
+			n, f := c14Faulty(r, gen.TS)
+			q, fault = "delete where json("+gen.Print(n)+")"+idx+" = 'x'", f
+		}
+		pos = "under-index"
 	default: // index base / index misuse
 		n, f := c14Faulty(r, gen.TS)
 		t := gen.Bin("=", gen.IndexI(gen.Call("split", n, gen.Str(",")), 0), gen.Str("a"))
